@@ -212,7 +212,13 @@ fn generate(rng: &mut Rng) -> C20Sc {
         }
     }
     let busy = rng.chance(1, 2);
-    let gaps_ms: Vec<u64> = steps.iter().map(|_| if busy && rng.chance(1, 2) { *rng.pick(&[1u64, 5, 40, 300, 1000, 2500]) } else { 0 }).collect();
+    let mut gaps_ms: Vec<u64> = steps.iter().map(|_| if busy && rng.chance(1, 2) { *rng.pick(&[1u64, 5, 40, 300, 1000, 2500]) } else { 0 }).collect();
+    // a store change whose event reaches the adapter in the same read as the failure of the stream
+    for i in 0..steps.len().saturating_sub(1) {
+        if matches!(steps[i], Step::Apply(_) | Step::Delete { .. }) && matches!(steps[i + 1], Step::DropWatch { .. } | Step::GoneNow) && rng.chance(1, 2) {
+            gaps_ms[i] = FUSED;
+        }
+    }
     C20Sc {
         seed: rng.next_u64(),
         page_size: *rng.pick(&[1u32, 2, 3, 500]),
@@ -278,6 +284,8 @@ fn apply_step(st: &mut ApiState, model: &mut BTreeMap<String, Gs>, step: &Step) 
 }
 
 const SETTLE_NS: u64 = 180_000_000_000;
+/// `gaps_ms` value meaning "the next step follows at once, before the adapter task runs again"
+pub const FUSED: u64 = 9_999;
 
 pub fn run(sc: &C20Sc) -> RunReport {
     let mut rep = RunReport { runs: 1, ..Default::default() };
@@ -377,6 +385,11 @@ pub fn run(sc: &C20Sc) -> RunReport {
                 }
                 // no settling after this step: the next one lands while the watcher is still busy
                 let gap = sc.gaps_ms.get(early + si - 1).copied().unwrap_or(0);
+                if gap == FUSED && si + 1 < steps.len() {
+                    trace.write_str("fused");
+                    *rep.probes.entry("step_fused_with_next".into()).or_insert(0) += 1;
+                    continue;
+                }
                 if gap > 0 && si + 1 < steps.len() {
                     tokio::time::sleep(Duration::from_millis(gap)).await;
                     let t = now_ns();
@@ -558,7 +571,7 @@ impl Check for C20 {
         generate(rng)
     }
     fn execute(&self, sc: &C20Sc) -> RunReport {
-        if sc.page_size == 0 || sc.steps.len() > 200 || sc.gaps_ms.iter().any(|g| *g > 10_000) || sc.initial.iter().chain(sc.steps.iter().filter_map(|s| if let Step::Apply(g) = s { Some(g) } else { None })).any(|g| g.name.is_empty()) {
+        if sc.page_size == 0 || sc.steps.len() > 200 || sc.gaps_ms.iter().any(|g| *g > 10_000 && *g != FUSED) || sc.initial.iter().chain(sc.steps.iter().filter_map(|s| if let Step::Apply(g) = s { Some(g) } else { None })).any(|g| g.name.is_empty()) {
             return RunReport::default();
         }
         run(sc)
